@@ -72,6 +72,10 @@ def explore(item, ctx, seed, easy_menu, clauses, quarter=True):
             neg += [float(v)] * c
         pin, nin = np.array(pos[::-1], dtype=np.int64), np.array(neg[::-1], dtype=np.float64)
         pos, neg = [float(x) for x in pos], [float(x) for x in neg]
+    elif item["grid"] == "uint":
+        pos, neg, vals = ot.concretise(blocks, "uint", seed)
+        pin, nin = np.array(pos[::-1], dtype=np.uint8), np.array(neg[::-1], dtype=np.uint8)  # unsorted, unsigned
+        pos, neg = [float(x) for x in pos], [float(x) for x in neg]
     elif item["grid"] == "float32":
         pos, neg, vals = ot.concretise(blocks, "irregular", seed)
         pos, neg = [float(x) for x in pos], [float(x) for x in neg]
@@ -82,16 +86,19 @@ def explore(item, ctx, seed, easy_menu, clauses, quarter=True):
             pos, neg = [float(x) for x in pos], [float(x) for x in neg]
         # unsorted input on purpose
         pin, nin = pos[::-1], neg[::-1]
+    orig_pos, orig_neg = pos, neg
     for cfg in ot.CFGS:
         sc, ec = cfg
         for ep, en in easy_menu:
+            pos, neg = orig_pos, orig_neg  # (the loop over derived objects below rebinds these names)
             base_case = {"blocks": item["blocks"], "grid": item["grid"], "pos": pos, "neg": neg,
                          "cfg": cfg, "easy": [ep, en]}
             ok, s = guarded(ctx, "construct", base_case, Scores, pin, nin, nb_easy_pos=ep,
                             nb_easy_neg=en, score_class=sc, equal_class=ec)
             if not ok:
                 continue
-            objs = [("constructed", s)]
+            src_pos, src_neg, src_easy = pos, neg, (ep, en)
+            objs = [("constructed", s, pos, neg, ep, en)]
             if item.get("mutated", False) and (ep, en) in ((0, 0), (1, 2), (2, 0)) and pos and neg:
                 # an object that answered queries for other scores and was then given these scores through its
                 # public attributes is a Scores object like any other
@@ -104,9 +111,15 @@ def explore(item, ctx, seed, easy_menu, clauses, quarter=True):
                                                                      getattr(s2, m_)(np.array([0.0, 1.0]))))
                     s2.pos, s2.neg = np.sort(np.asarray(pin)), np.sort(np.asarray(nin))
                     s2.nb_easy_pos, s2.nb_easy_neg = ep, en
-                    objs.append(("queried with other scores, then attributes assigned", s2))
-            for how, s in objs:
-                base_case = dict(base_case, object=how)
+                    objs.append(("queried with other scores, then attributes assigned", s2, pos, neg, ep, en))
+            if item.get("mutated", False) and (ep, en) in ((0, 0), (1, 2)) and pos and neg:
+                from mc.derived import derived_objects
+
+                for how_, d_ in derived_objects(s, seed, with_swap=False):
+                    objs.append((how_, d_, sorted(np.asarray(d_.pos, dtype=float).tolist()),
+                                 sorted(np.asarray(d_.neg, dtype=float).tolist()), int(d_.nb_easy_pos), int(d_.nb_easy_neg)))
+            for how, s, pos, neg, ep, en in objs:
+                base_case = dict(base_case, object=how, pos=pos, neg=neg, easy=[ep, en])
                 ctx.state()
                 for metric in METRICS:
                     rel = relevant(metric, pos, neg)
@@ -145,6 +158,9 @@ def explore(item, ctx, seed, easy_menu, clauses, quarter=True):
                         res[method] = tv
                     if res is None:
                         continue
+                    if not np.array_equal(tarr, np.array(targets, dtype=float)):
+                        ctx.fail("target-array-unchanged", case_m, observed=tarr, expected=targets)
+                        tarr = np.array(targets, dtype=float)
                     # metric at, just below and just above every returned threshold
                     mv = {}
                     for method in METHODS:
